@@ -81,6 +81,10 @@ type c14Result struct {
 type hostMux struct{ m map[string]*stublog.Server }
 
 func (h hostMux) RoundTrip(r *http.Request) (*http.Response, error) {
+	// As net/http's transport: a request whose context has ended fails.
+	if err := r.Context().Err(); err != nil {
+		return nil, err
+	}
 	if s, ok := h.m[r.URL.Host]; ok {
 		return s.RoundTrip(r)
 	}
@@ -593,5 +597,10 @@ func c14(tier string) int {
 	run.Set("exhaustive", true)
 	run.Set("rule", fmt.Sprintf("omniwitness.Main is run for real (generated ConfigLogs, listener on 127.0.0.1:0, outbound HTTP answered by in-process stub log servers generated from a 65537-leaf tree) for ALL strictly increasing growth schedules of length <= %d over sizes %v followed by a fork step: feeder type tiles follows every schedule at once (one configured log per schedule) in {running: 400 ms polling, in-memory and SQLite} and {restart between every step: one feed cycle per start, SQLite file}; feeder type sumdb (its origin line is fixed, so one log per process) runs a covering subset in the quick tier and every schedule in the thorough tier. After each growth the service's HTTP GET checkpoint must be the log's head, cosigned, after 3 complete poll cycles (cycle completion observed at the stub, not timed) / after the single cycle of a restart (write-handle close observed by wrapping the persistence); after the fork step it must still be the last checkpoint of the witnessed history. distinct_nontrivial = distinct (feeder, mode, storage, schedule)", maxLen, c14Sizes))
 	run.Assumption("goroutine interleavings and timer races inside Main are not enumerated; the scenario space is. Safety deadlines (90 s / 40 s per step, >= 100x the normal latency) only end a broken build")
+	// Addressing leg: the schedules above stay below 65 538 leaves; the tile
+	// paths the sumdb feeder will ask for in larger trees (indices up to 10^9,
+	// every carry boundary of the x%03d encoding) are checked against the
+	// reference tlog paths directly (shared with C18).
+	run.Add("evaluations", c18Addressing(run))
 	return run.Finish()
 }
